@@ -475,7 +475,7 @@ class ProgGen(object):
                 s = fmt((self.f.get("ramt", 3.048) + r.choice([0.00001, 0.000003, 0.00002])) / self.unit, 9)
                 self.e = float(s) * self.unit
                 self.emit("G92 E" + s)
-        elif k < 0.75:
+        elif k < 0.75 and not self.f.get("hv_bed_sized"):
             # far away destination (outside every region), then back
             big = r.choice([1e6, 1e9, 1e12, 123456789.123])
             ax = r.choice("XY")
